@@ -73,7 +73,38 @@ type OpIn struct {
 	// skip_default_tx, disable_nested_tx, allow_global_update, full_save_associations,
 	// propagate_unscoped, query_fields, initialized, batch_size joined by "+"
 	Derive string `json:"derive,omitempty"`
+	// Side: before the operation, a side session bound to ANOTHER context is derived from the very handle
+	// the operation then runs on: new_db_ctx (Session{NewDB:true, Context: other}) | ctx (Session{Context: other}) |
+	// with (WithContext(other)) | new_db_ctx_skip_hooks; suffixes "+run" (a Create runs on the side session first)
+	// and "+cancel" (the other context is cancelled afterwards)
+	Side string `json:"side,omitempty"`
 }
+
+func deriveSide(h *gorm.DB, side string, tag int) {
+	other, cancel := context.WithCancel(context.WithValue(context.Background(), recdrv.TagKey, fmt.Sprintf("tag-%d", tag)))
+	var sd *gorm.DB
+	switch strings.SplitN(side, "+", 2)[0] {
+	case "new_db_ctx":
+		sd = h.Session(&gorm.Session{NewDB: true, Context: other})
+	case "ctx":
+		sd = h.Session(&gorm.Session{Context: other})
+	case "with":
+		sd = h.WithContext(other)
+	case "new_db_ctx_skip_hooks":
+		sd = h.Session(&gorm.Session{NewDB: true, Context: other, SkipHooks: true})
+	default:
+		panic("unknown side session " + side)
+	}
+	if has(side, "run") {
+		sd.Create(&User{Name: name("side")})
+	}
+	if has(side, "cancel") {
+		cancel()
+	}
+	_ = cancel
+}
+
+var sides = []string{"new_db_ctx", "new_db_ctx+run", "new_db_ctx+cancel", "new_db_ctx+run+cancel", "ctx", "ctx+cancel", "with+run", "with+cancel", "new_db_ctx_skip_hooks+cancel"}
 
 func deriveSession(d string) *gorm.Session {
 	s := &gorm.Session{}
@@ -153,10 +184,11 @@ type Obs struct {
 
 // ---------------------------------------------------------------- families
 type fam struct {
-	name string
-	run  func(h *gorm.DB) error
-	path func(table string) []string // internal session literals on the way to a statement on table
-	rows bool                        // SELECTs go through the Row callbacks (row.go)
+	name  string
+	run   func(h *gorm.DB) error
+	path  func(table string) []string        // internal session literals on the way to a statement on table
+	pathQ func(table, query string) []string // the same when the statement text matters (overrides path)
+	rows  bool                               // SELECTs go through the Row callbacks (row.go)
 }
 
 const (
@@ -193,6 +225,19 @@ func joinedNested(t string) []string {
 		return []string{litPreload, litPreloadEP, litPreload}
 	}
 	return []string{litPreload}
+}
+
+// FindInBatches: the first batch runs on the handle derived at the top (FindInBatches#0); with a LIMIT in
+// the chain the following batches run on the re-derived one (#1); the callback's handle is #2
+func fibPath(t, q string) []string {
+	p := []string{litFIB0}
+	if strings.Contains(q, "`id` >") && strings.Contains(strings.ToUpper(q), "LIMIT") {
+		p = append(p, litFIB1)
+	}
+	if t != "users" {
+		p = append(p, litFIB2)
+	}
+	return p
 }
 
 func only(main string, p ...string) func(string) []string {
@@ -385,6 +430,53 @@ var families = []fam{
 		}
 		return []string{litFIB0, litFIB1}
 	}},
+	// Limit / Offset in the chain: FindInBatches re-derives the handle it uses from the second batch on
+	{name: "find_in_batches_limit", run: func(h *gorm.DB) error {
+		var us []User
+		n := 0
+		err := h.Limit(5).FindInBatches(&us, 2, func(tx *gorm.DB, b int) error {
+			n++
+			var c int64
+			return tx.Model(&Pet{}).Count(&c).Error
+		}).Error
+		if err == nil && n < 3 {
+			return fmt.Errorf("only %d batches", n)
+		}
+		return err
+	}, pathQ: fibPath},
+	{name: "find_in_batches_offset_limit", run: func(h *gorm.DB) error {
+		var us []*User
+		n := 0
+		err := h.Offset(1).Limit(4).Where("age > ?", 0).FindInBatches(&us, 3, func(tx *gorm.DB, b int) error { n++; return nil }).Error
+		if err == nil && n < 2 {
+			return fmt.Errorf("only %d batches", n)
+		}
+		return err
+	}, pathQ: fibPath},
+	{name: "find_in_batches_limit_in_tx", run: func(h *gorm.DB) error {
+		return h.Transaction(func(tx *gorm.DB) error {
+			var us []User
+			return tx.Limit(6).FindInBatches(&us, 2, func(btx *gorm.DB, b int) error { return nil }).Error
+		})
+	}, pathQ: func(t, q string) []string { return append([]string{litBegin}, fibPath(t, q)...) }},
+	// a side session with another context derived INSIDE a transaction block from the block's handle
+	{name: "tx_side_session", run: func(h *gorm.DB) error {
+		return h.Transaction(func(tx *gorm.DB) error {
+			other, cancel := context.WithCancel(context.WithValue(context.Background(), recdrv.TagKey, "tag-777777"))
+			_ = tx.Session(&gorm.Session{NewDB: true, Context: other})
+			cancel()
+			if err := tx.Create(&User{Name: name("ts")}).Error; err != nil {
+				return err
+			}
+			var us []User
+			return tx.Preload("Pets").Find(&us).Error
+		})
+	}, path: func(t string) []string {
+		if t == "users" {
+			return []string{litBegin}
+		}
+		return []string{litBegin, litPreload}
+	}},
 	{name: "count", run: func(h *gorm.DB) error { var n int64; return h.Model(&User{}).Where("age > ?", 1).Count(&n).Error }, path: always()},
 	{name: "pluck", run: func(h *gorm.DB) error { var ns []string; return h.Model(&User{}).Pluck("name", &ns).Error }, path: always()},
 	{name: "first", run: func(h *gorm.DB) error { var u User; return h.First(&u).Error }, path: always()},
@@ -527,6 +619,7 @@ func runCase(in Input, facts srcfacts.Facts) Obs {
 	for i := 0; i < 2; i++ {
 		lib.Must(db.Create(newUser()).Error)
 	}
+	lib.Must(db.Create(&[]User{{Name: name("x"), Age: 20}, {Name: name("x"), Age: 21}, {Name: name("x"), Age: 22}, {Name: name("x"), Age: 23}}).Error)
 	dump := func() string {
 		rec.Recording = false
 		defer func() { rec.Recording = true }()
@@ -554,7 +647,6 @@ func runCase(in Input, facts srcfacts.Facts) Obs {
 		if f == nil {
 			panic("unknown family " + op.Fam)
 		}
-		before := dump()
 		ctx := context.WithValue(context.Background(), recdrv.TagKey, fmt.Sprintf("tag-%d", op.Tag))
 		if op.Cancelled {
 			c2, cancel := context.WithCancel(ctx)
@@ -570,6 +662,10 @@ func runCase(in Input, facts srcfacts.Facts) Obs {
 		if op.Derive != "" {
 			h = h.Session(deriveSession(op.Derive))
 		}
+		if op.Side != "" {
+			deriveSide(h, op.Side, 100000+op.Tag)
+		}
+		before := dump()
 		rec.Reset()
 		var oo OpOut
 		func() {
@@ -625,7 +721,11 @@ func attribute(f *fam, e recdrv.Event, prep bool) (path []string, site, inner st
 		return
 	}
 	verb, table := verbOf(e.Query), tableOf(e.Query)
-	path = append([]string{}, f.path(table)...)
+	if f.pathQ != nil {
+		path = append([]string{}, f.pathQ(table, e.Query)...)
+	} else {
+		path = append([]string{}, f.path(table)...)
+	}
 	isQuery := e.Kind == "query" || e.Kind == "stmt_query"
 	if e.Kind == "prepare" {
 		// the statement about to run decides; RETURNING / SELECT are queries
@@ -736,7 +836,7 @@ func shapeOf(in Input) string {
 	var sb strings.Builder
 	fmt.Fprintf(&sb, "prep%v", in.Prep)
 	for _, op := range in.Ops {
-		fmt.Fprintf(&sb, "|%s/%s/%v/%s", op.Fam, op.Bind, op.Cancelled, op.Derive)
+		fmt.Fprintf(&sb, "|%s/%s/%v/%s/%s", op.Fam, op.Bind, op.Cancelled, op.Derive, op.Side)
 	}
 	return sb.String()
 }
@@ -762,6 +862,7 @@ func main() {
 			out.Count("bind", in.Ops[i].Bind)
 			out.Count("cancelled", fmt.Sprint(in.Ops[i].Cancelled))
 			out.Count("derived_session", "{"+in.Ops[i].Derive+"}")
+			out.Count("side_session", "{"+in.Ops[i].Side+"}")
 			errk := "nil"
 			if o.Ops[i].Err != "" {
 				errk = "error"
@@ -827,7 +928,19 @@ func main() {
 		add("derived", Input{Prep: true, Ops: []OpIn{{Fam: "create_assoc", Bind: "with", Tag: tag, Derive: d}, {Fam: "preload_nested", Bind: "session", Tag: tag + 1, Derive: d, Cancelled: true}}})
 		tag++
 	}
-	budget := 520
+	// a side session with another context derived from the handle the operation then runs on
+	for _, sd := range sides {
+		for _, fn := range []string{"create_assoc", "preload", "transaction", "find_in_batches_limit"} {
+			for _, cancelled := range []bool{false, true} {
+				if cancelled && fn != "create_assoc" && a.Tier != "thorough" {
+					continue
+				}
+				tag++
+				add("side", Input{Prep: fn == "preload", Ops: []OpIn{{Fam: fn, Bind: lib.Pick(r, []string{"with", "session"}), Tag: tag, Cancelled: cancelled, Side: sd}}})
+			}
+		}
+	}
+	budget := 640
 	if a.Tier == "thorough" {
 		budget = 2500
 	}
@@ -855,11 +968,15 @@ func main() {
 					d = "new_db+skip_hooks"
 				}
 			}
-			in.Ops = append(in.Ops, OpIn{Fam: f.name, Bind: lib.Pick(r, []string{"with", "session"}), Tag: tag, Cancelled: r.Chance(1, 8), Derive: d})
+			sd := ""
+			if r.Chance(1, 4) {
+				sd = lib.Pick(r, sides)
+			}
+			in.Ops = append(in.Ops, OpIn{Fam: f.name, Bind: lib.Pick(r, []string{"with", "session"}), Tag: tag, Cancelled: r.Chance(1, 8), Derive: d, Side: sd})
 		}
 		add("main", in)
 	}
-	out.Extra["rule"] = "cases = programs of 1..4 operations on one database, each operation from one of " + fmt.Sprint(len(families)) + " families (Create with belongs-to/has-many/many2many values, CreateInBatches, Save existing/missing, Updates, Delete with Select(associations), Preload single/nested/clause.Associations, Joins, Joins + preload nested under the joined relation with First/Take/Last/Find(&one)/Find(&slice)/Find(&[]*T) destinations and inside Transaction, Association Append/Replace/Delete/Clear/Count/Find, FindInBatches with a statement from the batch handle, Count, Pluck, First/Take/Last, FirstOrCreate, Scan, Rows, Row, Raw, Exec, Transaction plain/nested with save points/rolled back, Begin..Commit) started from db.WithContext(ctx) or db.Session(&Session{Context: ctx}) with a distinct tag, optionally through a further caller-derived session Session{NewDB / SkipHooks / PrepareStmt / SkipDefaultTransaction / DisableNestedTransaction / AllowGlobalUpdate / FullSaveAssociations / PropagateUnscoped / QueryFields / Initialized / CreateBatchSize combinations} that does not repeat the context, PrepareStmt on/off, 1/8 pre-cancelled; distinct = distinct (PrepareStmt, family/bind/cancelled sequence); non-trivial = at least 2 driver events observed"
+	out.Extra["rule"] = "cases = programs of 1..4 operations on one database, each operation from one of " + fmt.Sprint(len(families)) + " families (Create with belongs-to/has-many/many2many values, CreateInBatches, Save existing/missing, Updates, Delete with Select(associations), Preload single/nested/clause.Associations, Joins, Joins + preload nested under the joined relation with First/Take/Last/Find(&one)/Find(&slice)/Find(&[]*T) destinations and inside Transaction, Association Append/Replace/Delete/Clear/Count/Find, FindInBatches with a statement from the batch handle, FindInBatches with Limit / Offset+Limit over several batches in and out of Transaction, a Transaction block deriving a side session with another context, Count, Pluck, First/Take/Last, FirstOrCreate, Scan, Rows, Row, Raw, Exec, Transaction plain/nested with save points/rolled back, Begin..Commit) started from db.WithContext(ctx) or db.Session(&Session{Context: ctx}) with a distinct tag, optionally through a further caller-derived session Session{NewDB / SkipHooks / PrepareStmt / SkipDefaultTransaction / DisableNestedTransaction / AllowGlobalUpdate / FullSaveAssociations / PropagateUnscoped / QueryFields / Initialized / CreateBatchSize combinations} that does not repeat the context, optionally after a side session bound to ANOTHER context (Session{NewDB,Context} / Session{Context} / WithContext, used and/or cancelled) was derived from the very handle the operation runs on, PrepareStmt on/off, 1/8 pre-cancelled; distinct = distinct (PrepareStmt, family/bind/cancelled sequence); non-trivial = at least 2 driver events observed"
 	lib.Must(out.Flush())
 }
 
